@@ -422,3 +422,132 @@ def agg_case(seed):
       rules.append(Rule('Q', [x, Bin('+', v, Num(1))], body=Conj([ValAtom('P', [x], [], v), A('F', x, z)])))
   prog = Program(rules, ext=EXT)
   return Case(prog, 'agg', K=K, nullable=nullable, notes=notes)
+
+
+# ---------------------------------------------------------------- family: rec (C03)
+
+REC_TEMPLATES = ['tc_linear', 'tc_left', 'tc_nonlinear', 'tc_disj', 'same_gen', 'reach_mutual_cut',
+                 'three_cycle_flat', 'min_path', 'min_path_w', 'counter', 'counter_distinct',
+                 'reach_from', 'two_cycle_flat']
+
+
+def rec_case(seed, deep=False):
+  rnd = random.Random(seed ^ 0x7ec)
+  tmpl = REC_TEMPLATES[seed % len(REC_TEMPLATES)] if not deep else rnd.choice(
+      ['counter', 'tc_linear', 'reach_from', 'two_cycle_flat', 'counter_distinct'])
+  x, y, z, p, q, n, d = [Var(v) for v in ['x', 'y', 'z', 'p', 'q', 'n', 'd']]
+  depth = rnd.choice([1, 2, 3, 2, 3, None]) if not deep else rnd.choice([21, 24, 22])
+  rules = []
+  mode = 'exact'      # exact: result == T^(depth+1)(empty); contain: T^(d+1) <= result <= T^(c*(d+1))
+  cycle = 1
+  K = 3
+  main = None
+  ann = []
+  if tmpl == 'tc_linear':
+    main = 'TC'
+    rules = [Rule('TC', [x, y], distinct=True, body=A('E', x, y)),
+             Rule('TC', [x, y], distinct=True, body=Conj([A('TC', x, z), A('E', z, y)]))]
+  elif tmpl == 'tc_left':
+    main = 'TC'
+    rules = [Rule('TC', [x, y], distinct=True, body=A('E', x, y)),
+             Rule('TC', [x, y], distinct=True, body=Conj([A('E', x, z), A('TC', z, y)]))]
+  elif tmpl == 'tc_nonlinear':
+    main = 'TC'
+    rules = [Rule('TC', [x, y], distinct=True, body=A('E', x, y)),
+             Rule('TC', [x, y], distinct=True, body=Conj([A('TC', x, z), A('TC', z, y)]))]
+    if depth is None:
+      depth = 3
+  elif tmpl == 'tc_disj':
+    main = 'TC'
+    rules = [Rule('TC', [x, y], distinct=True,
+                  body=Disj([A('E', x, y), Conj([A('E', x, z), A('TC', z, y)])]))]
+  elif tmpl == 'same_gen':
+    main = 'SG'
+    rules = [Rule('SG', [x, y], distinct=True, body=Conj([A('E', p, x), A('E', p, y)])),
+             Rule('SG', [x, y], distinct=True, body=Conj([A('E', p, x), A('SG', p, q), A('E', q, y)]))]
+    K = 2
+    if depth is None:
+      depth = 2
+  elif tmpl == 'reach_mutual_cut':
+    # A -> B -> A : the cycle is cut by one predicate => vertical unfolding
+    main = 'Ra'
+    rules = [Rule('Ra', [x], distinct=True, body=A('G', x)),
+             Rule('Ra', [y], distinct=True, body=Conj([A('Rb', x), A('E', x, y)])),
+             Rule('Rb', [y], distinct=True, body=Conj([A('Ra', x), A('F', x, y)]))]
+    mode = 'contain'
+    cycle = 2
+    K = 2
+    if depth is None:
+      depth = 2
+  elif tmpl == 'two_cycle_flat':
+    # both predicates are self-recursive and mutually recursive: no single cut
+    main = 'Ra'
+    rules = [Rule('Ra', [x], distinct=True, body=A('G', x)),
+             Rule('Ra', [y], distinct=True, body=Conj([A('Rb', x), A('E', x, y)])),
+             Rule('Ra', [y], distinct=True, body=Conj([A('Ra', x), A('F', x, y)])),
+             Rule('Rb', [y], distinct=True, body=Conj([A('Ra', x), A('F', x, y)])),
+             Rule('Rb', [y], distinct=True, body=Conj([A('Rb', x), A('E', x, y)]))]
+    K = 2
+    if depth is None:
+      depth = 2
+  elif tmpl == 'three_cycle_flat':
+    main = 'Ra'
+    rules = [Rule('Ra', [x], distinct=True, body=A('G', x)),
+             Rule('Ra', [y], distinct=True, body=Conj([A('Rb', x), A('E', x, y)])),
+             Rule('Ra', [y], distinct=True, body=Conj([A('Rc', x), A('F', x, y)])),
+             Rule('Rb', [y], distinct=True, body=Conj([A('Ra', x), A('F', x, y)])),
+             Rule('Rb', [y], distinct=True, body=Conj([A('Rc', x), A('E', x, y)])),
+             Rule('Rc', [y], distinct=True, body=Conj([A('Ra', x), A('E', x, y)])),
+             Rule('Rc', [y], distinct=True, body=Conj([A('Rb', x), A('F', x, y)]))]
+    K = 2
+    if depth is None:
+      depth = 2
+  elif tmpl == 'min_path':
+    main = 'D'
+    rules = [Rule('D', [x, y], value=Agg('Min', Num(1)), body=A('E', x, y)),
+             Rule('D', [x, y], value=Agg('Min', Bin('+', d, Num(1))),
+                  body=Conj([ValAtom('D', [x, z], [], d), A('E', z, y)]))]
+    if depth is None:
+      depth = 3
+  elif tmpl == 'min_path_w':
+    main = 'D'
+    w = Var('w')
+    rules = [Rule('D', [x, y], value=Agg('Min', w), body=A('W', x, y, w)),
+             Rule('D', [x, y], value=Agg('Min', Bin('+', d, w)),
+                  body=Conj([ValAtom('D', [x, z], [], d), A('W', z, y, w)]))]
+    K = 2
+    if depth is None:
+      depth = 3
+  elif tmpl == 'counter':
+    main = 'N'
+    rules = [Rule('N', [x], body=A('G', x)),
+             Rule('N', [Bin('+', n, Num(1))], body=A('N', n))]
+    K = 2
+  elif tmpl == 'counter_distinct':
+    main = 'N'
+    rules = [Rule('N', [x], distinct=True, body=A('G', x)),
+             Rule('N', [Bin('+', n, Num(2))], distinct=True, body=Conj([A('N', n), Cmp('<', n, Num(rnd.choice([3, 40])))]))]
+    K = 2
+    if depth is None:
+      depth = 3
+  elif tmpl == 'reach_from':
+    main = 'R'
+    rules = [Rule('R', [x], distinct=True, body=A('G', x)),
+             Rule('R', [y], distinct=True, body=Conj([A('R', x), A('E', x, y)]))]
+  if deep:
+    K = 2
+  depths = {}
+  if depth is not None:
+    ann.append('@Recursive(%s, %d);' % (main, depth))
+    depths[main] = depth
+  prog = Program(rules, ann, ext=EXT)
+  c = Case(prog, 'rec', K=K, depths=depths, notes='%s depth=%s' % (tmpl, depth))
+  c.rec_mode = mode
+  c.cycle = cycle
+  c.depth = depth if depth is not None else 8
+  c.deep = deep
+  return c
+
+
+def recdeep_case(seed):
+  return rec_case(seed, deep=True)
